@@ -65,6 +65,7 @@ func js(x interface{}) string {
 func (p *Prog) JS() string {
 	var sb strings.Builder
 	sb.WriteString("var bs = _.bindings || {};\n")
+	pollute := false
 	for _, op := range p.Ops {
 		name := op[0].(string)
 		switch name {
@@ -96,6 +97,12 @@ func (p *Prog) JS() string {
 			fmt.Fprintf(&sb, "if (!(%s in bs)) { return null; }\n", js(op[1]))
 		case "rejectIf":
 			fmt.Fprintf(&sb, "if (bs[%s] === %s) { return null; }\n", js(op[1]), js(op[2]))
+		case "pollute":
+			// takes effect as the last thing the script does (see below): it must not disturb the
+			// script's own loops
+			pollute = true
+		case "forin":
+			fmt.Fprintf(&sb, "bs[%s] = (function(){ var c = 0; for (var kk in [1, 2]) { c++; } return c; })();\n", js(op[1]))
 		case "loop":
 			sb.WriteString("for(;;){}\n")
 		case "emitBad":
@@ -106,6 +113,9 @@ func (p *Prog) JS() string {
 				sb.WriteString("_.out(function(){});\n")
 			}
 		}
+	}
+	if pollute {
+		sb.WriteString("Array.prototype.zz = 1; Object.prototype.yy = 1;\n")
 	}
 	switch p.Ret {
 	case "null":
@@ -198,7 +208,13 @@ func (g *G) Action(guard bool, mode string) *Prog {
 	}
 	n := 1 + g.Intn(4)
 	for i := 0; i < n; i++ {
-		switch g.Intn(14) {
+		switch g.Intn(16) {
+		case 14:
+			// a script that changes a built-in of its runtime …
+			p.Ops = append(p.Ops, []interface{}{"pollute"})
+		case 15:
+			// … and one that would notice
+			p.Ops = append(p.Ops, []interface{}{"forin", g.PickS("count", "flag", "note")})
 		case 13:
 			p.Ops = append(p.Ops, []interface{}{"markdeep", g.PickS("keep!", "cfg!", "note", "t", "?x", "flag"), g.PickS("seen", "id", "k"), g.Scalar()})
 		case 0, 1:
